@@ -207,12 +207,20 @@ def const_value(n):
     try:
         return True, ast.literal_eval(n)
     except Exception:
-        return False, None
+        pass
+    # small integer arithmetic over literals (0 + 1, 2 * 3 - 1)
+    if isinstance(n, ast.BinOp) and isinstance(n.op, (ast.Add, ast.Sub, ast.Mult)):
+        ok1, a = const_value(n.left)
+        ok2, b = const_value(n.right)
+        if ok1 and ok2 and isinstance(a, (int, float)) and isinstance(b, (int, float)) and not isinstance(a, bool) and not isinstance(b, bool):
+            return True, (a + b if isinstance(n.op, ast.Add) else a - b if isinstance(n.op, ast.Sub) else a * b)
+    return False, None
 
 
 class PathSim:
     def __init__(self, repo, func, inline=(), may_raise=None, unroll=2, asserts='ignore', oracle=None,
-                 fork_ifexp=True, inline_depth=3, max_paths=MAX_PATHS, while_unroll=None, track_frames=False):
+                 fork_ifexp=True, inline_depth=3, max_paths=MAX_PATHS, while_unroll=None, track_frames=False,
+                 bool_returns=False):
         self.repo = repo
         self.func = func
         self.cg = repo.callgraph()
@@ -225,6 +233,7 @@ class PathSim:
         self.fork_ifexp = fork_ifexp
         self.inline_depth = inline_depth
         self.max_paths = max_paths
+        self.bool_returns = bool_returns
         self._count = 0
         self._fresh = 0
 
@@ -323,6 +332,16 @@ class PathSim:
                 st.events.append(Event('return', stmt, f, text='return', value=None, ep=st.ep, loops=st.loops))
                 return [(st, ('return', ast.Constant(value=None)))]
             out = []
+            if self.bool_returns and frame[2] == 0 and not isinstance(stmt.value, ast.Constant):
+                # a predicate: decide the returned condition, so that every path returns a constant truth value
+                for v, s, sig in self.cond(stmt.value, st, frame):
+                    if sig is not None:
+                        out.append((s, sig))
+                    else:
+                        c = ast.Constant(value=bool(v))
+                        s.events.append(Event('return', stmt, f, text=norm(stmt), value=c, ep=s.ep, loops=s.loops))
+                        out.append((s, ('return', c)))
+                return out
             for sym, s, sig in self.ev(stmt.value, st, frame):
                 if sig is not None:
                     out.append((s, sig))
